@@ -214,7 +214,7 @@ func run(c *mon.Ctx) {
 		}
 	})
 	sym := []byte{0x47, 0x47, 0x47, 0x00, 0x10, 0x05, 0x1f, 0xff, 0x30, 0x04, 0x0f, 0x03, 0x20, 0x0c}
-	c.Stream("random", c.N(60000, 3000000), func(i int, r *gen.Rand) {
+	c.Stream("random", c.N(60000, 100000000), func(i int, r *gen.Rand) {
 		n := r.Intn(40)
 		if r.Chance(5) {
 			n = r.Intn(600)
@@ -240,7 +240,7 @@ func run(c *mon.Ctx) {
 		}
 	})
 	// whole packets after garbage: the case real callers have
-	c.Stream("packets-after-garbage", c.N(3000, 100000), func(i int, r *gen.Rand) {
+	c.Stream("packets-after-garbage", c.N(3000, 3000000), func(i int, r *gen.Rand) {
 		g := r.Intn(400)
 		s := make([]byte, g)
 		for k := range s {
